@@ -149,8 +149,10 @@ func verif_RegisterControl(svr *Service, ctlConn net.Conn, loginMsg *msg.Login, 
 	if internal && loginMsg.ClientSpec.AlwaysAuthPass {
 		want = auth.AlwaysPassVerifier
 	}
+	av0 := svr.authVerifier
 	verif.ResetEvents()
 	err := svr.RegisterControl(ctlConn, loginMsg, internal)
+	verif.Ensures(svr.authVerifier == av0, "configured_verifier_untouched")
 	if verif.Called("server.NewControl") {
 		verif.Ensures(verif.CalledWith("server.NewControl", 4, want), "session_uses_verifier_in_force")
 	}
@@ -231,4 +233,138 @@ func verif_RegisterVisitorConn(svr *Service, visitorConn net.Conn, newMsg *msg.N
 		verif.Ensures(err != nil, "not_forwarded_means_error")
 	}
 	_, _ = ctl0, ok0
+}
+
+// ---------------------------------------------------------------- C09 quota / C10 rollback / C12 names: proxy registration
+
+// Monitor invariant of a session: with a quota configured the session never
+// holds more ports than maxPortsPerClient; the proxy table exists.
+//
+//verif:invariant Control mu
+func (ctl *Control) verifInvQuota() bool {
+	maxp := int(ctl.serverCfg.MaxPortsPerClient)
+	return ctl.proxies != nil && (maxp <= 0 || ctl.portsUsedNum <= maxp)
+}
+
+const (
+	evPxyRun   = "proxy.Proxy).Run"
+	evPxyClose = "proxy.Proxy).Close"
+	evExist    = "proxy.Manager).Exist"
+	evAdd      = "proxy.Manager).Add"
+	evDel      = "proxy.Manager).Del"
+	evNewPxy   = "server/proxy.NewProxy"
+	setOwn     = "mapset:H.server.Control.proxies"
+	delOwn     = "mapdel:H.server.Control.proxies"
+)
+
+// RegisterProxy: the proxy runs only if its name is free; a registration that
+// fails at any step leaves no residue (quota given back, started proxy closed,
+// nothing entered in the session); success accounts exactly the proxy's ports,
+// reports the address Run returned and enters the proxy under its own name.
+//
+//verif:contract (*~/server.Control).RegisterProxy
+//verif:props C09 C10 C12
+func verif_RegisterProxy(ctl *Control, pxyMsg *msg.NewProxy) {
+	maxp := int(ctl.serverCfg.MaxPortsPerClient)
+	reqName := pxyMsg.ProxyName
+	verif.ResetEvents()
+	remoteAddr, err := ctl.RegisterProxy(pxyMsg)
+	ran := verif.Called(evPxyRun)
+	delta := verif.NetDelta(&ctl.portsUsedNum)
+	if ran {
+		verif.Ensures(verif.Called(evExist) && !verif.RetBool(evExist, 0), "runs_only_if_name_is_free")
+		verif.Ensures(verif.CalledBefore(evExist, evPxyRun), "name_checked_before_run")
+		verif.Ensures(verif.CalledWith(evExist, 1, reqName), "checks_the_requested_name")
+	}
+	if err != nil {
+		verif.Ensures(delta == 0, "refused_registration_gives_quota_back")
+		verif.Ensures(!verif.Called(setOwn), "refused_registration_not_in_session")
+		if ran && verif.RetErr(evPxyRun, 1) == nil {
+			verif.Ensures(verif.Called(evPxyClose), "failure_after_run_closes_proxy")
+		}
+	} else {
+		pxy := verif.Ret[proxy.Proxy](evNewPxy, 0)
+		verif.Ensures(ran && verif.RetErr(evPxyRun, 1) == nil && remoteAddr == verif.RetStr(evPxyRun, 0), "success_reports_run_address")
+		verif.Ensures(verif.Called(evAdd) && verif.RetErr(evAdd, 0) == nil && verif.CalledWith(evAdd, 1, reqName), "success_registers_requested_name")
+		verif.Ensures(verif.CalledWith(setOwn, 2, pxy), "success_enters_session")
+		verif.Ensures(!verif.Called(evPxyClose), "success_keeps_proxy_running")
+		if maxp > 0 {
+			verif.Ensures(delta == pxy.GetUsedPortsNum(), "success_accounts_exactly_its_ports")
+		} else {
+			verif.Ensures(delta == 0, "no_quota_no_accounting")
+		}
+	}
+}
+
+// CloseProxy: "a close request affects only proxies of the session that sent
+// it": an unknown name has no effect at all; an own proxy is closed, its name
+// and quota released.
+//
+//verif:contract (*~/server.Control).CloseProxy
+//verif:props C10 C12 C15
+func verif_CloseProxy(ctl *Control, closeMsg *msg.CloseProxy) {
+	pxy0, own := ctl.proxies[closeMsg.ProxyName]
+	maxp := int(ctl.serverCfg.MaxPortsPerClient)
+	verif.ResetEvents()
+	err := ctl.CloseProxy(closeMsg)
+	delta := verif.NetDelta(&ctl.portsUsedNum)
+	verif.Ensures(err == nil, "never_fails")
+	if !own {
+		verif.Ensures(!verif.Called(evPxyClose) && !verif.Called(evDel) && !verif.Called(delOwn) && delta == 0, "foreign_or_unknown_name_has_no_effect")
+		verif.Ensures(!verif.Called("go:"), "foreign_or_unknown_name_notifies_nobody")
+	} else {
+		verif.Ensures(verif.CalledWith(evPxyClose, 0, pxy0) && verif.CallCount(evPxyClose) == 1, "own_proxy_closed_once")
+		verif.Ensures(verif.CalledWith(evDel, 1, pxy0.GetName()), "own_name_released")
+		verif.Ensures(verif.CalledWith(delOwn, 1, closeMsg.ProxyName), "removed_from_session")
+		verif.Ensures(verif.Called("go:(*github.com/fatedier/frp/server.Control).CloseProxy$1"), "plugins_notified")
+		if maxp > 0 {
+			verif.Ensures(delta == -pxy0.GetUsedPortsNum(), "quota_given_back")
+		} else {
+			verif.Ensures(delta == 0, "no_quota_no_accounting")
+		}
+	}
+}
+
+// Session end: the pool is closed (so late work connections are refused, not
+// parked) and drained; every proxy of the session is closed, its name released
+// and its close notified; the session is reported ended (doneCh) only after all
+// of that - a re-login waits on doneCh before it is acknowledged.
+//
+//verif:contract (*~/server.Control).worker
+//verif:props C10 C11 C12 C15
+func verif_worker(ctl *Control) {
+	verif.Requires(!verif.Closed(ctl.workConnCh) && !verif.Closed(ctl.doneCh) && ctl.workConnCh != nil && ctl.doneCh != nil, "session_running")
+	verif.ResetEvents()
+	ctl.worker()
+	verif.Ensures(verif.Closed(ctl.workConnCh), "pool_closed")
+	verif.Ensures(verif.Closed(ctl.doneCh), "end_reported")
+	verif.Ensures(verif.CalledBefore("loop:(*github.com/fatedier/frp/server.Control).worker#2", "close:H.server.Control.doneCh"), "end_reported_after_proxies_released")
+	verif.Ensures(verif.CalledBefore("close:H.server.Control.workConnCh", "loop:(*github.com/fatedier/frp/server.Control).worker#1"), "pool_closed_before_drain")
+}
+
+//verif:loopbody (*~/server.Control).worker 1 check=verifWorkerDrain args=workConn
+func verifWorkerDrain(workConn net.Conn) bool {
+	return verif.CalledWithInIter("net.Conn).Close", 0, workConn)
+}
+
+//verif:loopbody (*~/server.Control).worker 2 check=verifWorkerRelease args=pxy
+func verifWorkerRelease(pxy proxy.Proxy) bool {
+	return verif.CalledWithInIter(evPxyClose, 0, pxy) && verif.CalledWithInIter(evDel, 1, pxy.GetName()) &&
+		verif.CalledInIter("go:(*github.com/fatedier/frp/server.Control).worker$1")
+}
+
+// GetWorkConn: a connection taken from the pool is replaced by exactly one new
+// request to the client; a closed pool yields an error, not a nil connection.
+//
+//verif:contract (*~/server.Control).GetWorkConn
+//verif:props C11
+func verif_GetWorkConn(ctl *Control) {
+	verif.ResetEvents()
+	wc, err := ctl.GetWorkConn()
+	const evSend = "msg.Dispatcher).Send"
+	if err == nil {
+		verif.Ensures(verif.Called("recv"), "connection_comes_from_the_pool")
+		verif.Ensures(verif.CallCount(evSend) >= 1 && verif.CallCount(evSend) <= 2, "taken_connection_is_replaced")
+	}
+	_ = wc
 }
